@@ -61,7 +61,7 @@ def run(tier, replay=None):
         i, g = i_g
         out = os.path.join(vlib.scratch(), "crash-%d.ndjson" % i)
         st = vlib.driver_json(["crash", "-scenarios", g, "-out", out, "-tmp", tmp, "-from", window[0], "-to", window[1], "-cont", 3], timeout=7200)
-        if quick and not replay and i == 0:
+        if quick and not replay:
             # the genesis block (InitChain delivered again after a crash before the first commit) of one history
             out1 = os.path.join(vlib.scratch(), "crash-%d-genesis.ndjson" % i)
             st1 = vlib.driver_json(["crash", "-scenarios", g, "-out", out1, "-tmp", tmp, "-from", 1, "-to", 1, "-cont", 3], timeout=7200)
